@@ -1,2 +1,3 @@
 //! Reference models written independently of Humphrey.
 pub mod http;
+pub mod ws;
